@@ -420,8 +420,25 @@ fn run_d(case: &str, st: &mut Stats) -> Outcome {
 
 // ------------------------------------------------------------------ T
 /// this file's DIMACS printer; the layouts vary everything the token stream does not depend on
+/// comment bodies: anything up to the end of the line is comment, including digits, signs, a
+/// second "p cnf" and punctuation such as '%' (the SATLIB end marker when it stands alone)
+fn noise(k: usize) -> &'static str {
+    const N: [&str; 8] = [
+        "generated by the C17 harness",
+        "100% of the clauses follow; 50 % are binary",
+        "p cnf 9 9 (not the problem line)",
+        "% # @ ! $ ^ & * ( ) - + = [ ] { } ; : ' , . < > / ? | ~",
+        "%",
+        "-1 2 0",
+        "0",
+        "c c c %0 %1 0%",
+    ];
+    N[k % 8]
+}
+
 fn dimacs_text(fmt: usize, hv: usize, hc: usize, z: &[i64]) -> String {
     let mut s = String::new();
+    let nz = hv * 3 + hc * 5 + z.len();
     let lit = |x: i64, spaced: bool| -> String { if x < 0 && spaced { format!("- {}", -x) } else { x.to_string() } };
     match fmt {
         0 => {
@@ -433,11 +450,11 @@ fn dimacs_text(fmt: usize, hv: usize, hc: usize, z: &[i64]) -> String {
         }
         1 => {
             // comments before the problem line and between clauses
-            s.push_str("c generated by the C17 harness\nc\nc p cnf 9 9 (not the problem line)\n");
+            s.push_str(&format!("c {}\nc\nc p cnf 9 9 (not the problem line)\n", noise(nz)));
             s.push_str(&format!("p cnf {hv} {hc}\n"));
-            for x in z {
+            for (k, x) in z.iter().enumerate() {
                 s.push_str(&lit(*x, false));
-                s.push_str(if *x == 0 { "\nc clause done 1 2 0\n" } else { " " });
+                if *x == 0 { s.push_str(&format!("\nc clause done 1 2 0 {}\n", noise(nz + k))) } else { s.push(' ') }
             }
         }
         2 => {
@@ -461,7 +478,7 @@ fn dimacs_text(fmt: usize, hv: usize, hc: usize, z: &[i64]) -> String {
             s.push_str(&format!("p cnf {hv} {hc}\n"));
             for (k, x) in z.iter().enumerate() {
                 s.push_str(&lit(*x, true));
-                s.push_str(if k % 3 == 1 { " c interrupts the clause 7 0\n" } else { " " });
+                if k % 3 == 1 { s.push_str(&format!(" c interrupts the clause 7 0 {}\n", noise(nz + k))) } else { s.push(' ') }
             }
         }
         5 => {
@@ -473,12 +490,12 @@ fn dimacs_text(fmt: usize, hv: usize, hc: usize, z: &[i64]) -> String {
             s = s.trim_end().to_string();
         }
         6 => {
-            s.push_str(&format!("c\np cnf {hv} {hc}\n"));
+            s.push_str(&format!("c\np cnf {hv} {hc}\nc {}\n", noise(nz + 3)));
             for x in z {
                 s.push_str(&lit(*x, false));
                 s.push(' ');
             }
-            s.push_str("\nc trailing comment");
+            s.push_str(&format!("\nc trailing comment {}", noise(nz)));
         }
         _ => {
             // 8: no problem line (what Cnf::to_dimacs prints on its own)
